@@ -366,11 +366,13 @@ impl<'a, W: 'static, R: 'static, T: 'static> RuntimeScope<'a, W, R, T> {
                     if let XExpr::Value(cell_idx) = callee.as_ref() {
                         let cell = self.get_cell_value(*cell_idx);
                         if let EvaluationCell::LocalRecourse = cell {
-                            let args = args
-                                .iter()
-                                .map(|x| self.eval(x, rt.clone(), false).map(|r| r.unwrap_value()))
-                                .collect::<Result<_, _>>()?;
-                            return Ok(TailedEvalResult::TailCall(args));
+                            // as for an ordinary call: an erroring argument is the result
+                            let mut evaluated = Vec::with_capacity(args.len());
+                            for x in args {
+                                evaluated
+                                    .push(Ok(xraise!(self.eval(x, rt.clone(), false)?.unwrap_value())));
+                            }
+                            return Ok(TailedEvalResult::TailCall(evaluated));
                         }
                     }
                 }
